@@ -71,8 +71,40 @@ def gen_balanced(rng, depth, budget):
     return out
 
 
+def gen_paired(rng):
+    """openers and their closers in random interleaving (pairs may overlap), mixed with plain operations"""
+    n = rng.randint(1, 4)
+    ops, pending = [], []
+    for _ in range(n):
+        k = rng.choice([0, 0, 1])
+        pending.append(k)
+    openers = list(pending)
+    rng.shuffle(openers)
+    seq = [('pu', k) for k in openers]
+    closers = [('po', k) for k in openers]
+    rng.shuffle(closers)
+    # merge keeping each opener before its closer: open all in order, interleave closers after their opener
+    out, opened = [], []
+    todo_o, todo_c = list(seq), list(closers)
+    while todo_o or todo_c:
+        can_close = [c for c in todo_c if c[1] in opened]
+        if todo_o and (not can_close or rng.random() < 0.5):
+            _, k = todo_o.pop(0); opened.append(k)
+            out.append('pu:%d' % k + (':1=20' if k == 6 else ''))
+        elif can_close:
+            c = rng.choice(can_close); todo_c.remove(c); opened.remove(c[1])
+            k = c[1]
+            closer = {1: 3, 2: 4}.get(k) if rng.random() < 0.5 else None
+            out.append('po:%d' % (closer or k))
+        if rng.random() < 0.4:
+            out.append(rng.choice(LOCAL_OPS))
+    return out
+
+
 def generate(ctx):
     rng = ctx.rng
+    for _ in range(1500 if ctx.tier == 'quick' else 20000):
+        yield Case('ctx', mkline(gen_paired(rng)), None)
     L = 3 if ctx.tier == 'quick' else 4
     for n in range(0, L + 1):
         for tup in itertools.product(OPS, repeat=n):
@@ -106,7 +138,7 @@ _cls = {}
 def _setup():
     if _cls:
         return _cls
-    from plasTeX import Command, Macro
+    from plasTeX import Command, Macro, Environment
     from plasTeX.DOM import Node
     vals = {}
     def val(n, v):
@@ -121,7 +153,8 @@ def _setup():
                 attrs['level'] = Node.DOCUMENT_LEVEL
             for (n, v) in LOCALS.get(i, []):
                 attrs['loc%d' % n] = val(n, v)
-            types[t] = type('T%d' % t, (Command,), attrs)
+            # type 1 ('foo', closed by its \\end instance) is an Environment class, the others are Commands
+            types[t] = type('T%d' % t, (Environment if t == 1 else Command,), attrs)
     _cls.update(val=val, types=types, Macro=Macro)
     return _cls
 
@@ -290,12 +323,42 @@ def is_balanced(ops):
     return not st
 
 
+def is_paired(ops):
+    """every opener has exactly one later closer and every closer closes an opener that came before it, but the pairs may
+    overlap (`{ \\begin{e} } \\end{e}`): the statement's "however the groups were nested or interleaved with environments".
+    Only the depth clause is checked on these histories."""
+    open_, lost = [], []
+    for w in ops:
+        if w.startswith('pu'):
+            k = w.split(':')[1]
+            if k not in ('0', '1'):
+                return False        # objects with parent links between them: overlap is not supported by the pop rules (by design)
+            open_.append(k)
+        elif w.startswith('po'):
+            j = w.split(':')[1]
+            idx = [i for i in range(len(open_)) if closes(open_[i], j)]
+            if idx:
+                i = idx[-1]
+                lost += open_[i + 1:]
+                del open_[i:]
+            else:
+                m = [x for x in lost if closes(x, j)]
+                if not m:
+                    return False
+                lost.remove(m[-1])
+    return not open_ and not lost
+
+
 def judge(o):
     ops = o.case.line.split('|')[1].split()
     o.corr_ok = (o.impl == o.model)
     if is_balanced(ops):
         o.spec = ScopeOracle().run(ops)
         o.prop_ok = (o.impl == o.spec)
+    elif is_paired(ops):
+        o.spec = 'final d=1'
+        o.prop_ok = o.impl.split(' ; ')[-1].startswith('d=1 ')
+        o.in_domain = False         # overlapping pairs: only the final depth is part of the statement
     else:
         o.spec = '-'
         o.prop_ok = True
